@@ -209,7 +209,7 @@ def insert_ensures(m, stats=True):
          '&& sync_victim_ok(old(self).policy, %s.insert(%s, e), %s, v, old(self).ttl) '
          '&& %s == #[trigger] %s.insert(%s, e).remove(v) && final(self).order@ == rm1(%s, v)' % (Q1, M0, K, Q1, M1, M0, K, Q1)),
         ('survivors_unchanged', ['C01', 'C13'], 'forall|x: String| x != %s && #[trigger] %s.contains_key(x) ==> %s.contains_key(x) && %s[x] == %s[x]' % (K, M1, M0, M1, M0)),
-        ('last_store_wins', ['C01', 'C11', 'C03'], '%s.contains_key(%s) ==> %s[%s].value == value && %s[%s].frequency == 0' % (M1, K, M1, K, M1, K)),
+        ('last_store_wins', ['C01', 'C11', 'C03', 'C09', 'C10'], '%s.contains_key(%s) ==> %s[%s].value == value && %s[%s].frequency == 0' % (M1, K, M1, K, M1, K)),
         ('bound', ['C04'], '(old(self).limit is Some && old(self).limit->Some_0 >= 1 && old(self).order@.len() <= old(self).limit->Some_0) ==> final(self).order@.len() <= old(self).limit->Some_0'),
     ]
     if stats:
@@ -240,7 +240,7 @@ def insertm_ensures(m):
         ('fits_no_eviction', ['C05', 'C03', 'C04'], '(!%s && %s && (old(self).limit is None || %s.len() <= old(self).limit->Some_0)) ==> '
          'final(self).order@ == %s && %s.dom() == %s.dom().insert(%s)' % (OVERSIZE, MEMFITS, Q1, Q1, M1, M0, K)),
         ('survivors_unchanged', ['C01', 'C05'], 'forall|x: String| x != %s && #[trigger] %s.contains_key(x) ==> %s.contains_key(x) && %s[x] == %s[x]' % (K, M1, M0, M1, M0)),
-        ('last_store_wins', ['C01', 'C11', 'C03'], '%s.contains_key(%s) ==> %s[%s].value == value && %s[%s].frequency == 0' % (M1, K, M1, K, M1, K)),
+        ('last_store_wins', ['C01', 'C11', 'C03', 'C09', 'C10'], '%s.contains_key(%s) ==> %s[%s].value == value && %s[%s].frequency == 0' % (M1, K, M1, K, M1, K)),
         ('fifo_lru_oldest_first', ['C07'], '(!%s && (old(self).policy is FIFO || old(self).policy is LRU)) ==> is_suffix(final(self).order@, %s)' % (OVERSIZE, Q1)),
         ('bound', ['C04'], '(old(self).limit is Some && old(self).limit->Some_0 >= 1 && old(self).order@.len() <= old(self).limit->Some_0) ==> final(self).order@.len() <= old(self).limit->Some_0'),
     ]
